@@ -339,22 +339,36 @@ class CompiledDetectorSampler(_CompiledSamplerBase):
             prepend_observables: Defaults to false. When set, observables are included
                 with the detectors and are placed at the start of the results.
             append_observables: Defaults to false. When set, observables are included
-                with the detectors and are placed at the end of the results.
+                with the detectors and are placed at the end of the results. As in
+                Stim, setting both prepend_observables and append_observables places
+                the observables at the start and at the end.
             bit_packed: Defaults to false. When set, results are bit-packed.
 
         Returns:
             A numpy array or tuple of numpy arrays containing the samples.
 
-        """
-        samples = self._sample_batches(shots, batch_size)
+        Raises:
+            ValueError: If separate_observables is combined with prepend_observables
+                or append_observables (Stim rejects these combinations as well).
 
-        if append_observables:
-            return _maybe_bit_pack(samples, bit_packed=bit_packed)
+        """
+        if separate_observables and (append_observables or prepend_observables):
+            raise ValueError(
+                "Can't specify separate_observables=True with "
+                "append_observables=True or prepend_observables=True"
+            )
+
+        samples = self._sample_batches(shots, batch_size)
 
         num_detectors = self._num_detectors
         det_samples = samples[:, :num_detectors]
         obs_samples = samples[:, num_detectors:]
 
+        if prepend_observables and append_observables:
+            combined = np.concatenate([obs_samples, det_samples, obs_samples], axis=1)
+            return _maybe_bit_pack(combined, bit_packed=bit_packed)
+        if append_observables:
+            return _maybe_bit_pack(samples, bit_packed=bit_packed)
         if prepend_observables:
             combined = np.concatenate([obs_samples, det_samples], axis=1)
             return _maybe_bit_pack(combined, bit_packed=bit_packed)
